@@ -470,6 +470,15 @@ class Handles:
                         recv_ = norm(trc_.operand(s_.args[0]))
                         if any(x[0] == "field" and x[2] == cur_field for x in walk(recv_)):
                             cut.append(s_.short)
+            # ... and nothing of what is stored under the destination flows into them: a handle's buffer already starts with the bytes the
+            # file had when it was opened; merging the stored content in again ("keep what was appended in the meantime") makes a
+            # second flush of the same handle append its own bytes twice
+            stale = [x for x in walk(content or ()) if x[0] == "field" and x[2] == "content" and
+                     any(y[0] == "call" and y[1] in ("HashMap::get", "HashMap::get_mut") for y in walk(x[1]))]
+            n += 1
+            rep.ob(rule_pub, target.id, "published content does not come from the stored entry", not stale, "" if not stale else
+                   "the published bytes are (partly) the content found under the destination at flush time: after the handle's own first "
+                   "publication that content contains the handle's bytes already", t.line)
             n += 1
             rep.ob(rule_pub, target.id, "the whole buffer is published (no slice / truncation)", okc and not cut, "" if not cut else
                    "the published bytes are a part of the writer's buffer (%s): data behind the cursor, or beyond the cut, is lost" % cut[0], t.line)
@@ -477,9 +486,12 @@ class Handles:
             rep.ob(rule_pub, target.id, "published content originates from the writer's own buffer", okc, "" if okc else
                    "the published bytes do not come from the writer's cursor: %s" % fmt(content)[:60] if content else "no content", t.line)
             rep.ob(rule_pub, target.id, "published entry is a File", okt, "", t.line)
-            if not self.asyncw:
-                # R19.2: created / accessed carried over from the previous entry
+            if True:
+                # R19.2: created / accessed carried over from the previous entry (in either world, as soon as the entry type keeps
+                # the field at all: an async backend that learns to store creation times must not reset them at every publication)
                 for fld, fallback in (("created", "now"), ("accessed", "None")):
+                    if self.asyncw and fld not in d:
+                        continue
                     v = d.get(fld)
                     prev = v is not None and any(x[0] == "call" and x[1] in ("HashMap::get", "HashMap::get_mut") and len(x[2]) == 2 and
                                                  x[2][1][0] == "field" and x[2][1][2] == dest_field for x in walk(v))
